@@ -70,7 +70,7 @@ def main():
         meta["checks"] = results
         shutil.rmtree(f"/root/scratch/sv/{sid}-ev", ignore_errors=True)
         shutil.rmtree(f"/root/scratch/sv/{sid}-rp", ignore_errors=True)
-        sh(["git", "-C", wt, "checkout", "--", "."])
+        sh(["git", "-C", wt, "reset", "--hard", "HEAD"])
         d0 = subprocess.run(["/venv/bin/python", os.path.join(sdir, "demo.py")], cwd=wt, env=denv, capture_output=True, text=True, timeout=900)
         meta["demo_without_change_exit"] = d0.returncode
         ok = meta["demo_with_change_exit"] != 0 and d0.returncode == 0 and meta.get("suite_ok", True)
